@@ -93,17 +93,23 @@ theorem feed_never_stalls (bs : Bytes) (tbl : Tbl) (buf chunk : Bytes) :
 
 /-! ## 4. a returned message has a CheckSum field that matches its bytes -/
 
-/-- Every returned frame `enc` is `pre ++ SOH "10=" v` optionally followed by one SOH, `v` has no
-SOH, and Python's `int(v)` equals the byte sum of `pre ++ SOH` (everything in front of `10=`)
-modulo 256.  `pre` is exactly the model's `SOH.join(msg[:-1])`. -/
+/-- Every returned frame `enc` is `pre ++ SOH "10=" v` optionally followed by one SOH, where `v` is
+EXACTLY three ASCII digits (`ckParse`) denoting the byte sum of `pre ++ SOH` (everything in front of
+`10=`) modulo 256.  `pre` is exactly the model's `SOH.join(msg[:-1])`. -/
 theorem checksum_sound (bs : Bytes) (tbl : Tbl) (raw : Bytes) (m : Msg) (n : Nat) (enc : Bytes)
     (h : decode bs tbl raw = .msg m n enc) :
     ∃ pre v tail, enc = pre ++ SOH :: (tag10 ++ EQS :: v) ++ tail ∧ (tail = [] ∨ tail = [SOH]) ∧
-      SOH ∉ v ∧ pyInt v = some ((sum (pre ++ [SOH]) % 256 : Nat) : Int) ∧
+      ckParse v = some (sum (pre ++ [SOH]) % 256) ∧
       pre = join SOH (fieldsOf enc).dropLast := by
-  obtain ⟨pre, v, tail, h1, h2, h3, h4, h5⟩ := decode_checksum' h
-  refine ⟨pre, v, tail, h1, h2, h3, ?_, h5⟩
+  obtain ⟨pre, v, tail, h1, h2, _, h4, h5⟩ := decode_checksum' h
+  refine ⟨pre, v, tail, h1, h2, ?_, h5⟩
   rw [h4, sum_append, sum_cons, sum_nil]; rfl
+
+/-- what `ckParse v = some n` means -/
+theorem ckParse_spec (v : Bytes) (n : Nat) (h : ckParse v = some n) :
+    ∃ a b c, v = [a, b, c] ∧ isDigit a = true ∧ isDigit b = true ∧ isDigit c = true ∧
+      n = (a - 48) * 100 + (b - 48) * 10 + (c - 48) :=
+  ckParse_some h
 
 /-- the returned bytes are a contiguous piece of the buffer -/
 theorem decode_raw_infix (bs : Bytes) (tbl : Tbl) (raw : Bytes) (m : Msg) (n : Nat) (enc : Bytes)
@@ -118,11 +124,11 @@ theorem decode_raw_infix (bs : Bytes) (tbl : Tbl) (raw : Bytes) (m : Msg) (n : N
     exact List.IsInfix.trans (List.take_prefix _ _).isInfix (List.drop_suffix _ _).isInfix
 
 /-- **A frame whose CheckSum value does not match its bytes is never returned** – by any buffer,
-table or BeginString.  (`pre` is everything in front of `SOH 10=`; the value `v` is read with
-Python's `int()`.)  This is the part of "never accepts a corrupted frame" that the code
-guarantees: every edit of `pre` that changes the byte sum modulo 256 is rejected. -/
+table or BeginString.  (`pre` is everything in front of `SOH 10=`.)  This is the part of "never
+accepts a corrupted frame" that the code guarantees: every edit of `pre` that changes the byte sum
+modulo 256, and every edit of the CheckSum value itself, is rejected. -/
 theorem C10_corruption_partial (pre v tail : Bytes) (hv : SOH ∉ v) (ht : tail = [] ∨ tail = [SOH])
-    (hbad : pyInt v ≠ some ((sum (pre ++ [SOH]) % 256 : Nat) : Int)) :
+    (hbad : ckParse v ≠ some (sum (pre ++ [SOH]) % 256)) :
     ∀ bs tbl raw m n, decode bs tbl raw ≠ .msg m n (pre ++ SOH :: (tag10 ++ EQS :: v) ++ tail) := by
   intro bs tbl raw m n h
   obtain ⟨p1, v1, t1, e1, ht1, hv1, hp1, _⟩ := decode_checksum' h
@@ -147,6 +153,14 @@ theorem SumEdit1.sum_ne {p p' : Bytes} (h : SumEdit1 p p') :
   | insert a b y h0 hy =>
     simp only [sum_append, sum_cons, sum_nil]; omega
 
+/-- the value a returned frame carries is the sum of what precedes it -/
+theorem returned_value (bs : Bytes) (tbl : Tbl) (raw : Bytes) (m : Msg) (n : Nat) (pre v tail : Bytes)
+    (h : decode bs tbl raw = .msg m n (pre ++ SOH :: (tag10 ++ EQS :: v) ++ tail))
+    (hv : SOH ∉ v) (ht : tail = [] ∨ tail = [SOH]) : ckParse v = some (sum (pre ++ [SOH]) % 256) := by
+  obtain ⟨p1, v1, t1, e1, ht1, hv1, hp1, _⟩ := decode_checksum' h
+  obtain ⟨hpa, hva, _⟩ := ck_decomp_unique (v1 := v) (v2 := v1) e1 hv hv1 ht ht1
+  rw [hva, hpa, hp1, sum_append, sum_cons, sum_nil]; rfl
+
 /-- every single-byte substitution / non-NUL deletion / non-NUL insertion in front of the CheckSum
 field of a returned frame yields a byte string that is never returned -/
 theorem edit_in_summed_region_rejected (bs : Bytes) (tbl : Tbl) (raw : Bytes) (m : Msg) (n : Nat)
@@ -156,15 +170,23 @@ theorem edit_in_summed_region_rejected (bs : Bytes) (tbl : Tbl) (raw : Bytes) (m
     ∀ bs' tbl' raw' m' n',
       decode bs' tbl' raw' ≠ .msg m' n' (pre' ++ SOH :: (tag10 ++ EQS :: v) ++ tail) := by
   apply C10_corruption_partial pre' v tail hv ht
-  obtain ⟨p1, v1, t1, e1, ht1, hv1, hp1, _⟩ := decode_checksum' h
-  obtain ⟨hpa, hva, _⟩ := ck_decomp_unique (v1 := v) (v2 := v1) e1 hv hv1 ht ht1
-  rw [hva, hp1]
+  rw [returned_value bs tbl raw m n pre v tail h hv ht]
   intro hp2
-  have := he.sum_ne
-  simp only [Option.some.injEq, Int.natCast_inj] at hp2
-  rw [hpa] at this
-  apply this
-  rw [← hp2, sum_append, sum_cons, sum_nil]; rfl
+  simp only [Option.some.injEq] at hp2
+  exact he.sum_ne hp2
+
+/-- **any change of the CheckSum value is rejected**: if `… 10=v` is returned then `… 10=v'` with
+`v' ≠ v` (any length, any bytes without SOH – in particular every single-byte substitution,
+insertion or deletion inside the value) is never returned -/
+theorem checksum_value_edit_rejected (bs : Bytes) (tbl : Tbl) (raw : Bytes) (m : Msg) (n : Nat)
+    (pre v v' tail : Bytes)
+    (h : decode bs tbl raw = .msg m n (pre ++ SOH :: (tag10 ++ EQS :: v) ++ tail))
+    (hv : SOH ∉ v) (hv' : SOH ∉ v') (ht : tail = [] ∨ tail = [SOH]) (hne : v' ≠ v) :
+    ∀ bs' tbl' raw' m' n',
+      decode bs' tbl' raw' ≠ .msg m' n' (pre ++ SOH :: (tag10 ++ EQS :: v') ++ tail) := by
+  apply C10_corruption_partial pre v' tail hv' ht
+  intro h'
+  exact hne (ckParse_inj h' (returned_value bs tbl raw m n pre v tail h hv ht))
 
 /-- **Same-shape corruption is rejected.**  Take a frame that the decoder returns,
 `(a ++ x :: b) ++ SOH "10=" v ++ tail`, and replace the byte `x` anywhere in the summed region
@@ -175,17 +197,8 @@ theorem same_shape_corruption_rejected (bs : Bytes) (tbl : Tbl) (raw : Bytes) (m
     (h : decode bs tbl raw = .msg m n ((a ++ x :: b) ++ SOH :: (tag10 ++ EQS :: v) ++ tail))
     (hv : SOH ∉ v) (ht : tail = [] ∨ tail = [SOH]) (hx : x < 256) (hy : y < 256) (hxy : x ≠ y) :
     ∀ bs' tbl' raw' m' n',
-      decode bs' tbl' raw' ≠ .msg m' n' ((a ++ y :: b) ++ SOH :: (tag10 ++ EQS :: v) ++ tail) := by
-  intro bs' tbl' raw' m' n' h'
-  obtain ⟨p1, v1, t1, e1, ht1, hv1, hp1, _⟩ := decode_checksum' h
-  obtain ⟨p2, v2, t2, e2, ht2, hv2, hp2, _⟩ := decode_checksum' h'
-  obtain ⟨hpa, hva, _⟩ := ck_decomp_unique (v1 := v) (v2 := v1) e1 hv hv1 ht ht1
-  obtain ⟨hpb, hvb, _⟩ := ck_decomp_unique (v1 := v) (v2 := v2) e2 hv hv2 ht ht2
-  rw [← hva, ← hpa] at hp1
-  rw [← hvb, ← hpb, hp1] at hp2
-  have := sum_subst_ne (a := a) (b := b) hx hy hxy
-  simp only [Option.some.injEq, Int.natCast_inj] at hp2
-  exact this hp2
+      decode bs' tbl' raw' ≠ .msg m' n' ((a ++ y :: b) ++ SOH :: (tag10 ++ EQS :: v) ++ tail) :=
+  edit_in_summed_region_rejected bs tbl raw m n _ _ v tail h hv ht (SumEdit1.subst a b x y hxy hx hy)
 
 /-- … and when the substitution keeps the field structure (the piece still starts with the marker
 and gets no earlier `SOH "10="`), the buffer that starts with the corrupted frame yields NO message
@@ -199,14 +212,16 @@ theorem same_shape_corruption_not_decoded (bs : Bytes) (tbl : Tbl) (raw : Bytes)
     ∀ rest m' n' e', decode bs tbl ((a ++ y :: b) ++ cksumPat ++ v ++ SOH :: rest) ≠ .msg m' n' e' := by
   intro rest m' n' e'
   apply mismatching_frame_rejected bs tbl hmark hshape hv
-  obtain ⟨p1, v1, t1, e1, ht1, hv1, hp1, _⟩ := decode_checksum' h
-  obtain ⟨hpa, hva, _⟩ := ck_decomp_unique (v1 := v) (v2 := v1) e1 hv hv1 (Or.inr rfl) ht1
-  rw [← hva, ← hpa] at hp1
-  rw [hp1]
+  have h1 := returned_value bs tbl raw m n _ v [SOH] h hv (Or.inr rfl)
+  rw [h1]
   intro hp2
-  have := sum_subst_ne (a := a) (b := b) hx hy hxy
-  simp only [Option.some.injEq, Int.natCast_inj] at hp2
-  exact this hp2
+  simp only [Option.some.injEq] at hp2
+  have := (SumEdit1.subst a b x y hxy hx hy).sum_ne
+  apply this
+  rw [hp2]
+  have e : sum ((a ++ y :: b) ++ [SOH]) = sum (a ++ y :: b) + 1 := by
+    rw [sum_append, sum_cons, sum_nil]; rfl
+  rw [e]
 
 /-! ## 5. a wait is only ever for bytes that have not arrived -/
 
